@@ -20,6 +20,20 @@ NPROC = os.cpu_count() or 4
 ENV = dict(os.environ)
 ENV.update({"CARGO_NET_OFFLINE": "true", "CARGO_TERM_COLOR": "never"})
 
+# the extracted models are not tail recursive: give every child process (the OCaml driver in particular) a large
+# stack; long haystacks (100 000+ characters) otherwise overflow the default 8 MiB
+try:
+    import resource as _resource
+
+    _soft, _hard = _resource.getrlimit(_resource.RLIMIT_STACK)
+    _want = 4 << 30
+    if _hard != _resource.RLIM_INFINITY:
+        _want = min(_want, _hard)
+    if _soft == _resource.RLIM_INFINITY or _soft < _want:
+        _resource.setrlimit(_resource.RLIMIT_STACK, (_want, _hard))
+except Exception:  # noqa
+    pass
+
 TRUSTED_BASE_COMMON = [
     "Coq 8.16.1 kernel (coqc, full .vo builds; vm_compute used for finite computations; native_compute not used)",
     "tools/translate.py (translator from the Rust sources to coq/Gen/*.v: a small Rust front end - tokenizer, expression parser, evaluator - for the matcher crate, a function-body scanner with helper inlining and ordering resolution for boxcar.rs; unrecognised constructs are errors)",
